@@ -95,6 +95,8 @@ impl TransformerContext {
 //@       let b0 = own_bbox(target_of(*self, *el)->Some_0)->Some_0->Some_0;
 //@       let dx = off(el.attrs@, "x"@)->Some_0; let dy = off(el.attrs@, "y"@)->Some_0;
 //@       r->Ok_0 is Some && bx(r->Ok_0->Some_0) == (val(b0.x1) + dx, val(b0.y1) + dy, val(b0.x2) + dx, val(b0.y2) + dy) })     @@C08.use.translated.api
+//@ decreases
+//@ - self.config.depth_limit + 1     @@C01.clip.terminates.api
 //@end
 
 //@item src/context.rs :: impl TransformerContext :: fn element_bbox_at_depth
